@@ -1,7 +1,7 @@
 (* C05: prints, for each history, the trace the extracted HistoryModel predicts
    under the discipline T-api read from the source.
    usage: drv_hist <d_int> <d_first> <d_second> <natoms> <histories-file>
-   history line: "<id> op op ..." with ops US<v> UE<v> CI CF CS
+   history line: "<id> op op ..." with ops US<v> UE<v> CI CF CS IN
    output: "hist <id>" then per step "step <k> I <groups> F <groups> S <groups>"
    where <groups> = ngroups (count nsum (sv ev)* )*                        *)
 open Vext
@@ -10,7 +10,7 @@ open Vio
 let disc_of = function "Assign" -> Assign | "PushBack" -> PushBack | "ClearPush" -> ClearPush | _ -> Unknown
 
 let op_of s =
-  if s = "CI" then CompInt else if s = "CF" then CompFirst else if s = "CS" then CompSecond
+  if s = "IN" then ReInit else if s = "CI" then CompInt else if s = "CF" then CompFirst else if s = "CS" then CompSecond
   else if String.length s > 2 && String.sub s 0 2 = "US" then UpdShells (nat_of_int (int_of_string (String.sub s 2 (String.length s - 2))))
   else if String.length s > 2 && String.sub s 0 2 = "UE" then UpdEcps (nat_of_int (int_of_string (String.sub s 2 (String.length s - 2))))
   else failwith ("bad op " ^ s)
